@@ -148,9 +148,19 @@ class Proc:
         self.transforms = []
         self.engine = MerchantEngine()     # long-lived engine object that is re-parsed
         self.ds = decode_rows(copy.deepcopy(uni.get('data_sources') or {}))
+        self.ds_alt = decode_rows(copy.deepcopy(uni.get('data_sources_alt') or {}))
         self.seen_e, self.seen_r = set(), set()
         self.engines = []        # keep every cached engine alive so that identities are never reused
         self.origin = {}
+
+    def ds_for(self, t):
+        """supplemental rows handed over with this transaction: the universe's rows (default), other rows, or None
+        (callers such as the legacy amex/boa parsers pass no data_sources at all)"""
+        if isinstance(t, dict) and t.get('ds') == 'none':
+            return None
+        if isinstance(t, dict) and t.get('ds') == 'alt':
+            return self.ds_alt
+        return self.ds
 
     def path_for(self, f):
         return os.path.join(self.dir, 'merchants.rules' if f['suffix'] == '.rules' else 'merchant_categories.csv')
@@ -158,7 +168,7 @@ class Proc:
     def snapshot(self):
         return {'rules': canon_rules(self.rules), 'transforms': jsonable(self.transforms),
                 'cached_engine': engine_snapshot(get_cached_engine()), 'engine': engine_snapshot(self.engine),
-                'data_sources': jsonable(self.ds),
+                'data_sources': jsonable([self.ds, self.ds_alt]),
                 'cached_engine_identity': id(get_cached_engine()) if get_cached_engine() is not None else None}
 
     def diff(self, a, b):
@@ -219,7 +229,7 @@ class Proc:
                     m, c, s, mi = normalize_merchant(
                         t['description'], self.rules, amount=t['amount'], txn_date=mk_date(t.get('date')), field=field,
                         data_source=t.get('source'), transforms=self.transforms, location=t.get('location'),
-                        data_sources=self.ds)
+                        data_sources=self.ds_for(t))
                     res['out'] = {'merchant': m, 'category': c, 'subcategory': s, 'match_info': canon_match_info(mi)}
             except Exception as e:  # noqa
                 res['out'] = {'raise': type(e).__name__}
@@ -244,12 +254,13 @@ class Proc:
                     res['out'] = {'value': jsonable(v)}
                     same = txns == t0
                 else:
-                    td = txn_dict(self.uni['txns'][o['txn']])
+                    tq = self.uni['txns'][o['txn']]
+                    td = txn_dict(tq)
                     t0 = copy.deepcopy(td)
-                    v = expr_parser.evaluate_transaction(src, td, data_sources=self.ds)
+                    v = expr_parser.evaluate_transaction(src, td, data_sources=self.ds_for(tq))
                     res['out'] = {'value': jsonable(v)}
                     try:
-                        res['out']['matches'] = expr_parser.matches_transaction(src, td, data_sources=self.ds)
+                        res['out']['matches'] = expr_parser.matches_transaction(src, td, data_sources=self.ds_for(tq))
                     except Exception as e:  # noqa
                         res['out']['matches'] = {'raise': type(e).__name__}
                     same = td == t0
@@ -274,11 +285,12 @@ class Proc:
             res['out'] = {'raised': raised, 'engine': engine_snapshot(self.engine)}
             res['frame'] = self.diff(before, after)
         elif kind == 'engmatch':
-            td = txn_dict(self.uni['txns'][o['txn']])
+            tq = self.uni['txns'][o['txn']]
+            td = txn_dict(tq)
             t0 = copy.deepcopy(td)
             before = self.snapshot()
             try:
-                res['out'] = canon_match_result(self.engine.match(td, data_sources=self.ds))
+                res['out'] = canon_match_result(self.engine.match(td, data_sources=self.ds_for(tq)))
             except Exception as e:  # noqa
                 res['out'] = {'raise': type(e).__name__}
             after = self.snapshot()
@@ -310,7 +322,7 @@ class Proc:
             w.writerow([t['date'], t['description'], repr(t['amount']), kind])
         spec = parse_format_string('{date:%Y-%m-%d},{description},{amount},{kind}')
         txns = parse_generic_csv(p, spec, self.rules, source_name=t.get('source') or 'CSV', transforms=self.transforms,
-                                 data_sources=self.ds)
+                                 data_sources=self.ds_for(t))
         out = []
         for x in txns:
             d = dict(x)
